@@ -48,6 +48,9 @@ def _normalize_title_quotes(title: str) -> str:
     return f'"{escaped}"'
 
 
+_BACKSLASH_BEFORE_PUNCTUATION = re.compile(r"\\(?=[!-/:-@\[-`{-~]|$)")
+
+
 def _format_link_destination(dest: str) -> str:
     """
     A link destination as it has to be written: bare where that is possible, in pointy
@@ -68,6 +71,9 @@ def _format_link_destination(dest: str) -> str:
     needs_brackets = (
         dest == "" or depth != 0 or not balanced or any(c.isspace() for c in dest) or dest.startswith("<")
     )
+    # A backslash that is part of the destination has to stay one: before ASCII punctuation
+    # it would be read as an escape (`a\*b` written back as is denotes `a*b`).
+    dest = _BACKSLASH_BEFORE_PUNCTUATION.sub(r"\\\\", dest)
     if not needs_brackets:
         return dest
     return "<" + dest.replace("<", "\\<").replace(">", "\\>") + ">"
